@@ -9,24 +9,8 @@ ROOT = os.path.dirname(HERE)
 ALL = ["C%02d" % i for i in range(1, 21)]
 
 # id -> (category, technique, text, note, design_ref)
-CHECKS = {
-    "C10": ("model_checking",
-            "exhaustive enumeration of operand pairs vs math/big reference",
-            "Every operand pair of [-B,B]^2 (B=64 quick / 512 thorough), of a 75-value boundary set squared and of the power table "
-            "a in [-20,20] x b in [0,70] is run through the real Int built-ins (direct call and parsed source) for + - * // % ** / <=> and unary minus "
-            "and compared with a math/big oracle; the space is finite and enumerated completely, which is the right level for a "
-            "pure function over a product domain whose defects sit on sign/magnitude boundaries.",
-            "math/big and strconv are trusted; results that do not fit int64 are don't-care; values outside the enumerated domain are not covered.",
-            "DESIGN.md §4 C10"),
-    "C02": ("model_checking",
-            "exhaustive enumeration of operator pairs/triples vs reference Pratt parser built from the documented table",
-            "All 23^2 ordered operator pairs (x operand shapes), all 23^3 triples, and prefix/chain/if/assign/jump mixes are parsed by the real parser; "
-            "the AST string must equal the grouping computed by a reference precedence-climbing parser whose level table is read from "
-            "docs/reference/operators.md at check time, and re-inserting the implied parentheses into the source must not change the parse. "
-            "The property is a universal statement over a finite operator table, so complete enumeration of pairs and triples decides it.",
-            "ast String() is trusted as the observable; forms the table does not determine are not generated; operands are atoms of 5 shapes.",
-            "DESIGN.md §4 C02"),
-}
+CHECKS = {k: (v["category"], v["technique"], v["text"], v["note"], v["design_ref"])
+          for k, v in json.load(open(os.path.join(HERE, "checks_meta.json"))).items()}
 
 NOT_YET = "check not built yet in this round (work in progress; see DESIGN.md §4)"
 
